@@ -130,12 +130,50 @@ def run(rep):
         pre = [(b"sBIT", bytes([8] * {0: 1, 2: 3, 4: 2, 6: 4}[ct]))] if k % 3 != 2 else [(b"sBIT", bytes([rng.choice([1, 4, 7, 8, 12, 16])] * {0: 1, 2: 3, 4: 2, 6: 4}[ct]))]
         if k % 2:
             pre.append((b"gAMA", (45455).to_bytes(4, "big")))
+        if k % 5 == 1:
+            # coding-independent code points: BT.2020 primaries with the PQ / HLG transfer functions (an HDR image is still scaled)
+            pre.append((b"cICP", bytes([9, rng.choice([16, 18]), 0, 1])))
         png = e2e.png_from_token(rng, tok, pre=pre)
-        o = "scale16=1" + rng.choice(["", ",preset=0", ",preset=3", ",strip=safe", ",interlace=1"])
+        # (a preset resets every other field: it comes first)
+        o = rng.choice(["", "", "preset=0,", "preset=3,"]) + "scale16=1" + rng.choice(["", "", ",strip=safe", ",interlace=1"])
         cs3.add(f"optlog {o} - {png.hex()}", png=png, opts=o, ct=ct, depth=16, il=False, cls="pattern:" + name, orig=png, step=0)
     out3 = e2e.run_pairs(rep, cs3, "optimize_from_memory --scale16 (files with sBIT)")
     c01.oracle(rep, cs3, out3, lambda m: "scaled", "C15",
                "with --scale16 on a file that carries sBIT the output is not the input with every sample rounded to nearest")
+    # (f) both lossy switches: alpha one byte away from transparent / opaque (0x00xx is NOT transparent: its colour must survive, its
+    #     alpha rounds to 0 or 1), scaled and alpha-optimised
+    cs4 = vlib.Cases()
+    for k in range(40 if quick else 500):
+        ct = (4, 6)[k % 2]
+        w, h = imggen.pick_dims(rng)
+        tok, _ = imggen.gen(rng, ct, 16, w, h, rng.random() < 0.25, "nearalpha", "none")
+        png = e2e.png_from_token(rng, tok)
+        o = rng.choice(["", "", "preset=0,", "preset=3,"]) + "scale16=1,alpha=1" + rng.choice(["", ",force=1", ",interlace=1", ",ct=0"])
+        cs4.add(f"optlog {o} - {png.hex()}", png=png, opts=o, ct=ct, depth=16, il=False, cls="nearalpha", orig=png, step=0)
+    out4 = e2e.run_pairs(rep, cs4, "optimize_from_memory --scale16 --alpha (alpha near the ends)")
+    orc4 = vlib.Cases()
+    for cid, m in cs4.meta.items():
+        res = out4[cid][0]
+        if not res.startswith("ok "):
+            rep.violation("C15:alpha-scale-failed", f"a well-formed 16-bit image was not optimised: {res[:80]}", {"cases": [m["cmd"]]})
+            continue
+        ob = bytes.fromhex(res[3:])
+        try:
+            ti, _ = e2e.stream_token(m["png"])
+            to, _ = e2e.stream_token(ob)
+        except e2e.BadPng as ex:
+            rep.violation("C15:alpha-scale-unreadable", f"output unreadable: {ex}", {"cases": [m["cmd"]]})
+            continue
+        if pg.parse_img_token(to)[3] == 16:
+            continue               # returned / kept as it is (covered by (d))
+        rep.nontriv(m["cmd"])
+        orc4.add(f"spec_rel_stream {ti} {to} scaled", src=cid)
+    ro4 = vlib.run_cases(model, orc4.lines)
+    for oid, mo in orc4.meta.items():
+        if ro4.get(oid) not in ("eq", "alphaeq"):
+            src = cs4.meta[mo["src"]]
+            rep.violation("C15:alpha-scale-pixels", "with --scale16 and --alpha the output is not alpha-equivalent to the input with every sample rounded to nearest "
+                          f"(relation {ro4.get(oid)}; options {src['opts']})", {"cases": [src["cmd"]], "relation": ro4.get(oid)})
     rep.sample("scale8_all -> " + vlib.short(r, 80))
 
 
